@@ -301,8 +301,13 @@ class W9(ReqWorld):
         if self.n_sent(False) < p.get('n_req', 4):
             evs.append((('send',), 0))
         if self.n_sent(True) < p.get('n_use', 0):
-            for k in range(len(p['keyspaces'])):
+            # the keyspace names are interchangeable: a name is offered once every name before it has been used
+            # (by an earlier switch or by Cluster.connect(keyspace))
+            used = set(f._vuse for f in self.futures if getattr(f, '_vuse', None) is not None) | set([p.get('keyspace')])
+            for k, ks in enumerate(p['keyspaces']):
                 evs.append((('use', k), 0))
+                if ks not in used:
+                    break
         for k, q in enumerate(self.pending()):
             evs.append((('respond', k), 0))
             if p.get('retry_kind') and not is_internal_use(q.req):
